@@ -1072,9 +1072,136 @@ def _flatten_private_bases(trees: Dict[str, ast.Module]) -> int:
     return n
 
 
+def _split_attr_records(trees: Dict[str, ast.Module]) -> int:
+    """self.X = _Rec(a, b) in the __init__ of a class C, _Rec a private dataclass of the same module (no bases, plain
+    methods), and self.X only ever used as self.X.field / self.X.method(..) inside C: the fields become attributes of
+    C's object (self.X__field) and _Rec's methods private methods of C (self._X__method).  The record object cannot be
+    observed as a whole, so this is the same program with the state held one level up."""
+    import copy as _copy
+
+    n_done = 0
+    for t in trees.values():
+        recs = {}
+        for c in t.body:
+            if isinstance(c, ast.ClassDef) and c.name.startswith("_") and not c.name.startswith("__") and not c.bases and not c.keywords and any(ast.unparse(d).split("(")[0].split(".")[-1] == "dataclass" for d in c.decorator_list):
+                fields, methods, ok = [], {}, True
+                for st in c.body:
+                    if isinstance(st, ast.Expr) and isinstance(st.value, ast.Constant):
+                        continue
+                    if isinstance(st, ast.AnnAssign) and isinstance(st.target, ast.Name) and (st.value is None or isinstance(st.value, ast.Constant)):
+                        fields.append((st.target.id, st.value))
+                    elif isinstance(st, ast.FunctionDef) and not st.decorator_list and st.args.args and not st.name.startswith("__"):
+                        methods[st.name] = st
+                    else:
+                        ok = False
+                if ok and fields:
+                    recs[c.name] = (fields, methods)
+        if not recs:
+            continue
+        for C in [c for c in ast.walk(t) if isinstance(c, ast.ClassDef)]:
+            init = next((f for f in C.body if isinstance(f, ast.FunctionDef) and f.name == "__init__" and f.args.args), None)
+            if init is None:
+                continue
+            sp = init.args.args[0].arg
+            for st in list(init.body):
+                if not (isinstance(st, (ast.Assign, ast.AnnAssign)) and st.value is not None and isinstance(st.value, ast.Call) and isinstance(st.value.func, ast.Name) and st.value.func.id in recs):
+                    continue
+                tg = st.targets[0] if isinstance(st, ast.Assign) and len(st.targets) == 1 else (st.target if isinstance(st, ast.AnnAssign) else None)
+                if not (isinstance(tg, ast.Attribute) and isinstance(tg.value, ast.Name) and tg.value.id == sp):
+                    continue
+                X = tg.attr
+                fields, methods = recs[st.value.func.id]
+                fnames = [f for f, _d in fields]
+                call = st.value
+                if any(isinstance(a, ast.Starred) for a in call.args) or any(k.arg is None or k.arg not in fnames for k in call.keywords) or len(call.args) > len(fnames):
+                    continue
+                given = dict(zip(fnames, call.args))
+                dup = [k.arg for k in call.keywords if k.arg in given]
+                given.update({k.arg: k.value for k in call.keywords})
+                if dup or any(f not in given and d is None for f, d in fields):
+                    continue
+                # every use of the attribute name X in the module is self.X.<field or method> inside a method of C
+                parents = {}
+                for n in ast.walk(t):
+                    for ch in ast.iter_child_nodes(n):
+                        parents[id(ch)] = n
+                c_funcs = [f for f in C.body if isinstance(f, ast.FunctionDef) and f.args.args]
+                inside = {id(n): f for f in c_funcs for n in ast.walk(f)}
+                ok = True
+                uses = []
+                for n in ast.walk(t):
+                    if isinstance(n, ast.Attribute) and n.attr == X:
+                        if n is tg:
+                            continue
+                        f = inside.get(id(n))
+                        p_ = parents.get(id(n))
+                        if f is None or not (isinstance(n.value, ast.Name) and n.value.id == f.args.args[0].arg) or not isinstance(n.ctx, ast.Load):
+                            ok = False
+                            break
+                        if not (isinstance(p_, ast.Attribute) and p_.value is n):
+                            ok = False
+                            break
+                        if p_.attr in fnames:
+                            uses.append((p_, "field"))
+                        elif p_.attr in methods and isinstance(parents.get(id(p_)), ast.Call) and parents[id(p_)].func is p_:
+                            uses.append((p_, "method"))
+                        else:
+                            ok = False
+                            break
+                    if isinstance(n, ast.Constant) and n.value == X:
+                        ok = False
+                        break
+                # the record's methods touch the record through self.<field> / self.<method>(..) only
+                for mname, mdef in methods.items():
+                    msp = mdef.args.args[0].arg
+                    mpar = {}
+                    for n in ast.walk(mdef):
+                        for ch in ast.iter_child_nodes(n):
+                            mpar[id(ch)] = n
+                    for n in ast.walk(mdef):
+                        if isinstance(n, ast.Name) and n.id == msp:
+                            p_ = mpar.get(id(n))
+                            if not (isinstance(p_, ast.Attribute) and p_.value is n and (p_.attr in fnames or (p_.attr in methods and isinstance(mpar.get(id(p_)), ast.Call) and mpar[id(p_)].func is p_))):
+                                ok = False
+                        if isinstance(n, (ast.FunctionDef, ast.Lambda, ast.ClassDef)) and n is not mdef:
+                            ok = False
+                existing = {f.name for f in C.body if isinstance(f, ast.FunctionDef)}
+                if not ok or any(f"_{X.lstrip('_')}__{mn}" in existing for mn in methods):
+                    continue
+                pre = "_" + X.lstrip("_") + "__"
+                # 1. the fields
+                new_stmts = []
+                for f, d in fields:
+                    v = given.get(f, d)
+                    a_ = ast.Assign(targets=[ast.Attribute(value=ast.Name(id=sp, ctx=ast.Load()), attr=f"{X}__{f}", ctx=ast.Store())], value=v, type_comment=None)
+                    new_stmts.append(ast.copy_location(a_, st))
+                i = init.body.index(st)
+                init.body[i:i + 1] = new_stmts
+                # 2. the uses
+                for p_, kind in uses:
+                    base = p_.value.value  # the Name self
+                    if kind == "field":
+                        p_.value, p_.attr = base, f"{X}__{p_.attr}"
+                    else:
+                        p_.value, p_.attr = base, pre + p_.attr
+                # 3. the methods
+                for mname, mdef in methods.items():
+                    nm = _copy.deepcopy(mdef)
+                    nm.name = pre + mname
+                    msp = nm.args.args[0].arg
+                    for n in ast.walk(nm):
+                        if isinstance(n, ast.Attribute) and isinstance(n.value, ast.Name) and n.value.id == msp:
+                            n.attr = f"{X}__{n.attr}" if n.attr in fnames else pre + n.attr
+                    C.body.append(nm)
+                ast.fix_missing_locations(t)
+                n_done += 1
+    return n_done
+
+
 def canonicalise(trees: Dict[str, ast.Module]) -> Dict[str, str]:
     """rename renamed private anchors back (in the trees); returns {canonical name: name used in this tree}"""
     _flatten_private_bases(trees)
+    _split_attr_records(trees)
     _alias_methods(trees)
     for t in trees.values():
         if any(isinstance(x, ast.Attribute) and x.attr == "format" and isinstance(x.value, ast.Constant) for x in ast.walk(t)) or any(isinstance(x, ast.BinOp) and isinstance(x.op, ast.Mod) and isinstance(x.left, ast.Constant) and isinstance(x.left.value, str) for x in ast.walk(t)):
